@@ -441,6 +441,15 @@ func (e *Enc) applyCall(name, kind string, fn *ssa.Function, fc *FuncContract, c
 		}
 	} else {
 		mod = e.callMod(c)
+		// object-precise write sets: a key the callee writes only on the object one of its parameters points to
+		if kind == "func" && fn != nil && !c.IsInvoke() && len(args) == len(fn.Params) {
+			for _, k := range mod.Sorted() {
+				if j, ok := e.p.paramRooted(fn, k); ok && j < len(args) {
+					delete(mod, k)
+					precise = append(precise, preciseAssign{k, e.coerce(args[j])})
+				}
+			}
+		}
 	}
 	// an object of this function that is handed to the callee must satisfy its type's invariant now (the
 	// callee assumes it); from here on it is an ordinary object whose invariant callees preserve
@@ -1207,6 +1216,23 @@ func (e *Enc) loopHeader(b *ssa.BasicBlock, li *loopInfo, preds []*ssa.BasicBloc
 	nowBeforeLoop := e.now0
 	private := e.loopPrivateAllocs(li)
 	for _, k := range e.expandKeys(li.mod) {
+		if rv, ok := li.loopRoot(k); ok && strings.HasPrefix(k, "F|") && !li.mod["*"] {
+			if rt, known := e.vals[rv]; known && rt.Addr == nil && rt.Tuple == nil && rt.T.S != "" {
+				// every write of the body goes to this one object: only its field is unknown at the head
+				old := e.heapGet(e.cur, k)
+				fv := e.fresh("loopcell", arrayElemSort(old.Sort))
+				e.heapSet(e.cur, k, e.define("H_"+sanitize(k), Store(old, rt.T, fv)))
+				if ft := e.p.fieldTypeByKey(k); ft != nil {
+					if _, basic := ft.Underlying().(*types.Basic); basic {
+						e.assume(e.typeInv(fv, ft, e.cur.now)) // range of a machine integer; references may be younger than the clock here
+					}
+				}
+				e.unbalancedCallee = li.directMod[k]
+				e.monotoneAssume(k, old, e.heapGet(e.cur, k))
+				e.unbalancedCallee = false
+				continue
+			}
+		}
 		old, nw := e.havocKey(e.cur, k)
 		e.unbalancedCallee = li.directMod[k] // the loop body itself writes the field: nothing is known about it at the head
 		e.monotoneAssume(k, old, nw)
@@ -1581,6 +1607,7 @@ func (e *Enc) assumeEntry() {
 	for _, p := range e.fn.Params {
 		e.assumeLoadedInv(e.vals[p].T, p.Type())
 	}
+	e.assumeRefinedRequires()
 	if e.fc == nil {
 		return
 	}
@@ -1686,6 +1713,33 @@ func (e *Enc) checkPost(rets []retRec) {
 	}
 	// struct invariants of objects allocated here must hold when the function returns them
 	e.checkAllocInvariants(pos, rets)
+	// the protocol of a function type this function is a value of
+	for _, rf := range e.p.refinementsOf(e.fn) {
+		for i, cl := range rf.fc.Ens {
+			label := cl.Label
+			if label == "" {
+				label = "e" + itoa(i)
+			}
+			if strings.HasPrefix(label, "assume-") {
+				continue
+			}
+			g, err := all(func(r retRec, env *Env) (Term, error) {
+				renv := e.refinementEnv(env, rf.fc)
+				for j, rn := range rf.fc.Results {
+					if v, ok := env.vars[fmt.Sprintf("r%d", j)]; ok {
+						renv.vars[rn] = v
+					}
+				}
+				t, err := renv.Eval(cl.Expr)
+				return t.T, err
+			})
+			if err != nil {
+				e.contractError(e.name, cl, err, pos)
+				continue
+			}
+			e.obligeNamed(e.name+"/refines/"+rf.name+"/"+label, "post", "refines/"+rf.name+"/"+label, pos, g, cl.Props, "ensures (protocol of "+rf.name+") "+cl.Src)
+		}
+	}
 	if e.fc == nil {
 		return
 	}
